@@ -392,6 +392,14 @@ def exec_real(entry, path, names, repeat=1, data=None):
 
 # ---------------------------------------------------------------- judging
 
+def cli_exit(o):
+    """Process exit status `gemato` would end with: sys.exit(main()) maps None to 0."""
+    code = o.get('exit')
+    if o['kind'] == 'ret' or o.get('class') == 'exit':
+        return 0 if code is None else code
+    return None
+
+
 def _exc_sig(check, entry, o):
     sig = {'check': check, 'entry': entry, 'exc': o['exc']}
     if o.get('where'):
@@ -432,10 +440,10 @@ def judge(entry, kind, names, seed, L, o, repeat=1):
             if o['kind'] == 'exc' and o.get('class') != 'exit':
                 out.append((_exc_sig('unsupported_name_wrong_exception', entry, o),
                             f'{desc} but {o["exc"]}({o.get("msg", "")}) escaped instead of UnsupportedHash'))
-            elif o.get('exit') == 0:
+            elif cli_exit(o) == 0:
                 out.append(({'check': 'unsupported_name_yielded_result', 'entry': entry},
                             f'{desc} but the command succeeded: {o["stdout"][:120]!r}'))
-            elif not (o.get('exit') == 1 and any(lv == 'ERROR' for lv, _ in o['log'])):
+            elif not (cli_exit(o) == 1 and any(lv == 'ERROR' for lv, _ in o['log'])):
                 out.append(({'check': 'unsupported_name_wrong_exit', 'entry': entry, 'got': got},
                             f'{desc} but exit={o.get("exit")!r} log={o["log"][:2]!r}'))
         else:
@@ -452,7 +460,7 @@ def judge(entry, kind, names, seed, L, o, repeat=1):
         if o['kind'] == 'exc' and o.get('class') != 'exit':
             chk = 'internal_error' if o.get('class') == 'internal' else 'unexpected_exception'
             out.append((_exc_sig(chk, entry, o), f'{entry}: {o["exc"]} escaped for supported names {names}'))
-        elif o.get('exit') != 0:
+        elif cli_exit(o) != 0:
             out.append(({'check': 'supported_name_rejected', 'entry': entry, 'got': got},
                         f'{entry}: exit={o.get("exit")!r} log={o["log"][:2]!r} for supported names {names}'))
         else:
@@ -849,8 +857,9 @@ def finish(total, tier):
         errs.append(f'vacuity: {c["coreutils_crosschecks"]} coreutils cross-checks, expected '
                     f'{len(COREUTILS) * len(large_lengths(tier))}')
     if c['gemato_equals_coreutils'] != c['coreutils_crosschecks']:
-        errs.append(f'gemato digests agreed with coreutils in {c["gemato_equals_coreutils"]} of '
-                    f'{c["coreutils_crosschecks"]} cross-checked cases')
+        # not a harness error: judge() has already reported those cases as digest_mismatch
+        total.notes.append(f'gemato agreed with coreutils in {c["gemato_equals_coreutils"]} of '
+                           f'{c["coreutils_crosschecks"]} cross-checked (length, algorithm) pairs')
     kinds = {k.split('/')[1] for k in total.outcomes}
     for need in ('digest', 'unsupported'):
         if need not in kinds:
